@@ -419,7 +419,7 @@ func (c01) RunUnit(raw core.Unit, tier string, seed int64) core.UnitResult {
 		return res
 	}
 	res.Evaluations++
-	if ops.Get(cfg.Op).OutDirOp && cfg.Rel == "populated" && rec.Err == nil && !rec.Panicked {
+	if ops.Get(cfg.Op).OutDirOp && strings.HasPrefix(cfg.Rel, "populated") && rec.Err == nil && !rec.Panicked {
 		cfg.Populate = populateFrom(rec)
 		rec, err = engine.Run(cfg, engine.Options{})
 		if err != nil {
